@@ -578,7 +578,13 @@ func (op *ShellOperator) taskHandleHookRun(t task.Task) queue.TaskResult {
 			// so never merge in a task of a binding with a different allowFailure:
 			// its binding contexts would be dropped (or retried) by the wrong rule.
 			combineResult := op.combineBindingContextForHook(op.TaskQueues, op.TaskQueues.GetByName(t.GetQueueName()), t, func(tsk task.Task) bool {
-				return task_metadata.HookMetadataAccessor(tsk).AllowFailure != hookMeta.AllowFailure
+				tskMeta := task_metadata.HookMetadataAccessor(tsk)
+				// A Synchronization that should not run the hook ("executeHookOnSynchronization: false")
+				// must not be delivered as a part of another task.
+				if tskMeta.IsSynchronization() && !tskMeta.ExecuteOnSynchronization {
+					return true
+				}
+				return tskMeta.AllowFailure != hookMeta.AllowFailure
 			})
 			if combineResult != nil {
 				hookMeta.BindingContext = combineResult.BindingContexts
